@@ -5,10 +5,15 @@
 //      |    +- 3 B1
 //      |    +- 4 B2
 //      +- 5 C
+// feature sets for C15: default = all four optional features; VM_FEATURES 0 = none, 1 = plans + serialization, 2 = history + utility theory
+#if !defined VM_FEATURES || VM_FEATURES == 1
 #define HFSM2_ENABLE_PLANS
 #define HFSM2_ENABLE_SERIALIZATION
+#endif
+#if !defined VM_FEATURES || VM_FEATURES == 2
 #define HFSM2_ENABLE_TRANSITION_HISTORY
 #define HFSM2_ENABLE_UTILITY_THEORY
+#endif
 #ifdef VM_LOGGER
 #if VM_LOGGER == 2
 #define HFSM2_ENABLE_LOG_INTERFACE
@@ -20,10 +25,13 @@
 #include "common/verif.hpp"
 using namespace hfsm2; using namespace hfsm2::detail;
 struct Rng { float next() { float f = nd_f32(); VASSUME(f >= 0.0f && f < 1.0f); return f; } };
-#ifdef VM_PAYLOAD
+#if defined VM_PAYLOAD
 using Cfg = hfsm2::Config::ManualActivation::RandomT<Rng>::PayloadT<int32_t>;
-#else
+#elif defined HFSM2_ENABLE_UTILITY_THEORY
 using Cfg = hfsm2::Config::ManualActivation::RandomT<Rng>;
+#else
+using Cfg = hfsm2::Config::ManualActivation;
+#define VM_NO_RNG 1
 #endif
 using M = hfsm2::MachineT<Cfg>;
 #define S(s) struct s
